@@ -46,6 +46,8 @@ type crcCase struct {
 	// Prior: an earlier call on the same client (its reply is valid): success | eof | ioerr | partial-stall
 	Prior      string `json:"prior,omitempty"`
 	PriorShape string `json:"prior_shape,omitempty"` // request of the earlier call: "" same | short | long
+	// ExplicitParser: the client's configuration names the standard response parser explicitly (see cli.Scenario)
+	ExplicitParser bool `json:"explicit_parser,omitempty"`
 }
 
 func validReply(c crcCase) ([]byte, error) {
@@ -120,7 +122,7 @@ func runCRC(c crcCase) harness.Result {
 	if c.EOF == 2 {
 		ev = append(ev, xport.Event{Kind: "eof", N: 0})
 	}
-	sc := cli.Scenario{Kind: c.Kind, Req: c.Req, Stream: stream, Events: ev, ReadTimeoutMs: 25, Prior: c.Prior, PriorReq: cli.PriorShapeReq(c.PriorShape)}
+	sc := cli.Scenario{Kind: c.Kind, Req: c.Req, Stream: stream, Events: ev, ReadTimeoutMs: 25, Prior: c.Prior, PriorReq: cli.PriorShapeReq(c.PriorShape), ExplicitParser: c.ExplicitParser}
 	return judge(c, stream, reply, cli.Run(sc))
 }
 
@@ -245,6 +247,7 @@ func genCRC(t *rapid.T, kinds []string) crcCase {
 	if !cli.IsSerial(c.Kind) {
 		c.EOF = rapid.SampledFrom([]int{0, 0, 1, 2}).Draw(t, "eof")
 	}
+	c.ExplicitParser = !cli.IsSerial(c.Kind) && rapid.IntRange(0, 2).Draw(t, "explicit_parser") == 0
 	if rapid.IntRange(0, 3).Draw(t, "with_prior") == 0 {
 		c.Prior = rapid.SampledFrom([]string{"success", "success", "ioerr", "partial-stall"}).Draw(t, "prior")
 		c.PriorShape = rapid.SampledFrom(cli.PriorShapes).Draw(t, "prior_shape")
